@@ -51,7 +51,9 @@ def run_case(spec):
         for side in "AB":
             declared = rng.sample(names, rng.randint(0, len(names)))
             exp.append(declared)
-            listen_names[side] = [n for n in names if n in declared and rng.random() < 0.8]
+            # (now and then the application also listens for a name it did not declare - a plug-in that registers its
+            #  listener on its own: whether the listener is there before or after the OPEN must not change the answer)
+            listen_names[side] = [n for n in names if (n in declared and rng.random() < 0.8) or (n not in declared and rng.random() < 0.25)]
         expected = tuple(exp)
     dp = DilatedPair(world, expected=expected)
     drv = ScriptDriver(dp, rng, names=names, max_opens=4, max_writes=25, sizes=(1, 10, 300, 20000), late_listen=0.5,
